@@ -449,6 +449,16 @@ int lltd_port_get_wifi_phy_medium(void *ctx, uint32_t *out) {
     return 0;
 }
 
+/* ------------------------------------------------------------------ source hook (LLTD_VERIF_HOOKS) */
+
+void (*vp_verif_cb)(const char *point, vp_iface *ifc) = NULL;
+
+void lltd_verif_hook(const char *point, void *iface_ctx) {
+    vp_iface *ifc = (vp_iface *)iface_ctx;
+    if (ifc && point && !strcmp(point, "iface_state:create")) ifc->state_creations++;
+    if (vp_verif_cb) vp_verif_cb(point, ifc);
+}
+
 /* ------------------------------------------------------------------ port: logging */
 
 /* The format strings and arguments are part of the core's UB surface: format
